@@ -306,4 +306,16 @@ theorem C05_c_build_mapping (s : BitVec 64) (i j : Nat) (hi : i < 64) (hj : j < 
       (mappingEntry i j s.toNat).map (fun x => (x.1, x.2.1, if x.2.2 then (-1 : Int) else 1)) :=
   GenC.c_build_mapping_entry s i j hi hj
 
+/-- the **C** operator-string map kernel `make_mapping_each` (the tables behind every sparse apply and single-term
+    evolution), translated from fci_graph.c on every run: for every 64-bit string and all creator / annihilator
+    lists below 64 it admits exactly the strings the Model admits (C masks) and returns the Model's target and
+    parity (`mapEachStep`, which `C05_opstring` identifies with the descending ladder product) -/
+theorem C05_c_opstring_map (s : BitVec 64) (dag undag : List Nat) (hd : ∀ x ∈ dag, x < 64) (hu : ∀ x ∈ undag, x < 64) :
+    (GenC.mme_entry s dag undag).map (fun r => (r.1.toNat, r.2)) =
+      (if (s.toNat &&& dagMaskC dag undag) = 0 ∧ ((s.toNat &&& undagMask undag) ^^^ undagMask undag) = 0 then
+        some ((mapEachStep dag undag s.toNat).1, (mapEachStep dag undag s.toNat).2 % 2) else none) :=
+  GenC.c_mme_entry s dag undag hd hu
+
+example : GenC.mme_entry 0b0110#64 [0] [2] = some (0b0011#64, 1) := by decide
+
 end C05
